@@ -28,6 +28,7 @@ CL = "nauyaca.client.session:GeminiClient"
 
 
 def build(E):
+    E._c17_nested = True
     spec = C17.build(E)
     spec.pid = "C18"
     spec.keep = None
